@@ -29,6 +29,7 @@ def concurrent_part(ctx):
     # handed out is polled at every quiescence), Future (Fill racing Wait/WaitContext, cancellation),
     # Lazy (concurrent first calls); judged by Trace_WF
     bubble_tv(ctx, "TestWF", "xsync", "Trace_WF", "tv_wf.cfg", "watchable-future-lazy", {"n": ctx.pick(600, 6000)}, silent=False)
+    bubble_tv(ctx, "TestWF", "xsync", "Trace_WF", "tv_wf.cfg", "watchable-future-lazy perturbed", {"n": ctx.pick(400, 4000)}, silent=False, perturb=True)
     if not ctx.quick():
         bubble_tv(ctx, "TestWF", "xsync", "Trace_WF", "tv_wf.cfg", "watchable-future-lazy race", {"n": 900}, silent=False, race=True)
     ctx.assumptions += ["a second Future.Fill is documented misuse and not exercised"]
